@@ -34,7 +34,7 @@ ASSUMPTIONS = [
     'login handlers succeed (a failing login is C20\'s fail-fast matter); they return either fresh credentials or the very same ones',
     '(B) bounded liveness: recovery is demanded within the sum of configured delays + 30 s after the probe edit',
 ]
-BUDGET = {'quick': 140, 'thorough': 3000}
+BUDGET = {'quick': 140, 'thorough': 1500}
 TOL = 1e-6
 
 PATH = '/apis/kopf.dev/v1/namespaces/default/kopfexamples/'
